@@ -243,8 +243,21 @@ def empty(slice_i, n):
     for spec in S_.empty_shapes(slice_i, n):
         yield {"model": spec, "points": None}
 
+def lookalike_cases(tier):
+    """ENUMERATED: models / configurators whose ids are distinct but LOOK alike (surrounding blanks, case, unicode composition,
+    a tab), as leaf ids and as ids of sub-propositions; the round trip must keep every id as it is"""
+    L = lambda i: {"k": "leaf", "id": i, "b": [0, 1]}
+    pairs = [("pump", "pump "), ("pump", " pump"), ("pump", "Pump"), ("pump", "pump\t"), ("\u00e5", "a\u030a"), ("x", "\uff58"), ("1", "01")]
+    for i1, i2 in pairs:
+        cfgs = [{"k": "Stingy", "id": "conf", "c": [{"k": "cXor", "id": "X", "c": [L(i1), L(i2), L("r")], "default": [i2]}, L("item")]},
+                {"k": "Stingy", "id": "conf", "c": [{"k": "cAny", "id": i1, "c": [L("p"), L("q")], "default": ["p"]}, {"k": "Any", "id": i2, "c": [L("item"), L("r")]}]},
+                {"k": "Stingy", "id": "conf", "c": [{"k": "Imply", "id": "R", "c": [L(i1), {"k": "cXor", "id": None, "c": [L(i2), L("p")], "default": [i2]}]}, L("item")]}]
+        for c_ in cfgs:
+            yield {"from": "configurator", "model": c_, "prios": [[["item", 1], [i1, 2]], [[i2, 1]], [[i2, -1], [i1, 1]]]}
+
+
 def parts(tier):
-    return [Part("cfg_shapes", enumerate_cases=(lambda t: ({"from": "configurator", "model": s_, "prios": [[["item", 1], ["p", 2]]]} for s_ in S.cfg_small_shapes())), check=check_config, time_quick=150.0), Part("scale_configs", strategy=lambda t: S.big_configurator_spec().map(lambda s_: {"from": "configurator", "model": s_, "prios": [[["g000_b", 2], ["g001_a", 1]], [["it000", -1], ["g002_c", 3]]]}), check=check_config, quick=(1, 12), thorough=(2, 150)), Part("scale", strategy=lambda t: __import__("vf.strategies", fromlist=["x"]).scale_case(), check=check_prop, quick=(1, 30), thorough=(2, 400)), Part("empty0", enumerate_cases=(lambda t: empty(0, 1)), check=check_prop, time_quick=120.0), Part("class_twins", strategy=lambda t: S.class_twin_spec().map(lambda s_: {"model": s_, "points": None}), check=check_prop, quick=(1, 300), thorough=(2, 3000)), Part("by_reference", strategy=lambda t: S.by_reference_spec().map(lambda s_: {"model": s_, "points": None}), check=check_prop, quick=(1, 200), thorough=(2, 2000))] + [
+    return [Part("lookalike_ids", enumerate_cases=lookalike_cases, check=check_config, time_quick=100.0), Part("cfg_shapes", enumerate_cases=(lambda t: ({"from": "configurator", "model": s_, "prios": [[["item", 1], ["p", 2]]]} for s_ in S.cfg_small_shapes())), check=check_config, time_quick=150.0), Part("scale_configs", strategy=lambda t: S.big_configurator_spec().map(lambda s_: {"from": "configurator", "model": s_, "prios": [[["g000_b", 2], ["g001_a", 1]], [["it000", -1], ["g002_c", 3]]]}), check=check_config, quick=(1, 12), thorough=(2, 150)), Part("scale", strategy=lambda t: __import__("vf.strategies", fromlist=["x"]).scale_case(), check=check_prop, quick=(1, 30), thorough=(2, 400)), Part("empty0", enumerate_cases=(lambda t: empty(0, 1)), check=check_prop, time_quick=120.0), Part("class_twins", strategy=lambda t: S.class_twin_spec().map(lambda s_: {"model": s_, "points": None}), check=check_prop, quick=(1, 300), thorough=(2, 3000)), Part("by_reference", strategy=lambda t: S.by_reference_spec().map(lambda s_: {"model": s_, "points": None}), check=check_prop, quick=(1, 200), thorough=(2, 2000))] + [
         Part("propositions", strategy=lambda t: prop_case(t), check=check_prop, quick=(5, 300), thorough=(10, 2000)),
         Part("configs", strategy=lambda t: config_case(t), check=check_config, quick=(3, 500), thorough=(6, 3000)),
     ]
